@@ -660,6 +660,35 @@ pub fn c10(ctx: &Ctx, rep: &mut Report) {
                 };
                 cli_budget -= 1;
                 expect_cli(rep, &format!("fault#{}:{}@{}/{}", pi, class, li, pos), "fml run", &run, &out, &replay, class);
+                // the same run with a standard error stream that cannot be written (full device, closed
+                // descriptor) or that is the same pipe as stdout: still no abort, same status, same stdout
+                if tag % 11 == 0 {
+                    if let Ok(exe) = std::env::current_exe() {
+                        let v = (tag / 11) % 3;
+                        let script = ["exec \"$0\" run \"$1\" 2>/dev/full", "exec \"$0\" run \"$1\" 2>&-", "exec \"$0\" run \"$1\" 2>&1 <&-"][v];
+                        let r = cli::run(cli::Spec::new(&["-c", script, exe.to_str().unwrap_or("fml"), f.to_str().unwrap()]).exe(std::path::Path::new("/bin/bash")));
+                        cli_budget -= 1;
+                        rep.evaluations += 1;
+                        if !r.timed_out && r.spawn_error.is_none() {
+                            rep.conclusive += 1;
+                            rep.bump("c10-hostile-stderr", ["stderr on a full device", "stderr closed", "stderr and stdout on one pipe, stdin closed"][v]);
+                            let what = ["2>/dev/full", "2>&-", "2>&1 <&-"][v];
+                            if r.signal.is_some() {
+                                rep.violation("C10:hostile-stderr:signal", format!("fault {}: `fml run FILE {}` dies by a signal: {}", class, what, r.describe()), replay.clone());
+                            } else if r.success() == reached {
+                                rep.violation("C10:hostile-stderr:status", format!("fault {}: `fml run FILE {}` exits with {:?}, expected {}", class, what, r.code, if reached { "failure" } else { "success" }), replay.clone());
+                            } else if (v < 2 && r.out_str() != out.out) || (v == 2 && ((!reached && r.out_str() != out.out) || (reached && r.out_str().len() <= out.out.len()))) {
+                                // (merged streams: where the diagnostic lands relative to still-buffered
+                                // output is not pinned by the property; only that both arrive)
+                                rep.violation(
+                                    "C10:hostile-stderr:stdout",
+                                    format!("fault {}: `fml run FILE {}`: stdout {:?}, expected {}{:?}", class, what, cli::truncate(&r.out_str(), 300), if v == 2 { "the diagnostic after " } else { "" }, cli::truncate(&out.out, 300)),
+                                    replay.clone(),
+                                );
+                            }
+                        }
+                    }
+                }
                 rep.nontrivial(hash_str(&src));
                 if rep.samples.len() < 2 && reached && src.len() < 700 {
                     rep.sample(json!({"fault_class": class, "src": src, "expected_stdout": out.out, "observed_exit": run.code, "observed_stderr": cli::truncate(&run.err_str(), 200)}));
@@ -828,6 +857,10 @@ fn odd_log_paths(tag: &str) -> Vec<std::path::PathBuf> {
         std::path::PathBuf::from(t("noextension")),
         std::path::PathBuf::from(format!("{}-{}.csv", tag, "l".repeat(180))),
         std::path::PathBuf::from(t("a")).join("b").join("c").join("d").join("e.csv"),
+        // a symbolic link to a file that does not exist yet (in another directory), and a directory
+        // component that is a symbolic link: set up by run_with_log_at
+        std::path::PathBuf::from(t("linkfile.csv")),
+        std::path::PathBuf::from(t("linkdir")).join("heap.csv"),
     ]
 }
 
@@ -847,6 +880,21 @@ fn run_with_log_at(dir: &std::path::Path, src: &str, tag: &str, subdir: bool, vi
     };
     let log = dir.join(&log_rel);
     let _ = std::fs::remove_file(&log);
+    let real_dir = dir.join(format!("{}-link-target", tag));
+    if let Some(name) = log_rel.to_str() {
+        if odd.is_some() && name.ends_with("linkfile.csv") {
+            let _ = std::fs::create_dir_all(&real_dir);
+            let _ = std::fs::remove_file(real_dir.join("real.csv"));
+            let _ = std::os::unix::fs::symlink(real_dir.join("real.csv"), &log);
+        } else if odd.is_some() && name.ends_with("linkdir/heap.csv") {
+            let _ = std::fs::create_dir_all(&real_dir);
+            let _ = std::fs::remove_file(real_dir.join("heap.csv"));
+            if let Some(parent) = log.parent() {
+                let _ = std::fs::remove_file(parent);
+                let _ = std::os::unix::fs::symlink(&real_dir, parent);
+            }
+        }
+    }
     let mut args: Vec<String> = Vec::new();
     if via_execute {
         let ast = real::parse(src).ok()?;
@@ -880,9 +928,10 @@ fn run_with_log_at(dir: &std::path::Path, src: &str, tag: &str, subdir: bool, vi
     if odd.is_some() {
         // whatever the run created for the odd name: the first path component below the scratch directory
         let _ = std::fs::remove_dir_all(&home);
+        let _ = std::fs::remove_dir_all(&real_dir);
         if let Some(first) = log_rel.components().find(|c| matches!(c, std::path::Component::Normal(_))) {
             let top = dir.join(first.as_os_str());
-            if top.is_dir() {
+            if top.is_dir() && !std::fs::symlink_metadata(&top).map(|m| m.file_type().is_symlink()).unwrap_or(false) {
                 let _ = std::fs::remove_dir_all(&top);
             } else {
                 let _ = std::fs::remove_file(&top);
